@@ -116,6 +116,15 @@ func ZZ_C18_boltOps() {
 	ctx := context.Background()
 	s := zzOpen(kind)
 	m := &zzModel{}
+	// the store may start with a dense run of rounds 0..init-1 (so that short sequences reach states in which a
+	// round has a stored predecessor: re-puts and deletions below the head, reads before and after them)
+	for r := 0; r < zz.Param("init", 0); r++ {
+		sig, prev := byte(0x50+r), byte(0x4f+r)
+		if err := s.Put(ctx, &common.Beacon{Round: uint64(r), Signature: []byte{sig}, PreviousSig: []byte{prev}}); err != nil {
+			panic(err)
+		}
+		m.put(uint64(r), sig, prev)
+	}
 	for i := 0; i < k; i++ {
 		op := zz.Choose(fmt.Sprintf("op%d", i), 7)
 		r := zz.U64(fmt.Sprintf("r%d", i))
